@@ -55,15 +55,33 @@ def check_operators():
 
 # ---------------------------------------------------------------- dispatch generation
 
-def lean_dispatch_entry(info, ns):
-    """one match arm for Driver/GenDispatch.lean, or None when the signature is not dispatchable"""
+VR = {"vr4": ("VRegion4", "V4", 4, "__m256i"), "vr8": ("VRegion8", "V8", 8, "__m512i")}
+
+
+def lean_dispatch_entry(info, ns, vregs=None):
+    """one match arm for Driver/GenDispatch.lean, or None when the signature is not dispatchable.
+    vregs: number of registers a vector-region parameter (`__m256i *`, `Element_avx &`) designates in this module
+    (3 for the planar cubic-extension operands): passed as vregs * lanes words, register 0 first."""
     pats, args = [], []
     k = 0
     for p in info.params:
         if p["mode"] == "out":
             continue
         c = p["cat"]
-        if c == "u64":
+        if c in VR and vregs == 3:
+            rt, vt, w, _ = VR[c]
+            regs = []
+            for r in range(3):
+                names = ["x%d" % (k + i) for i in range(w)]
+                pats.extend(".w " + n for n in names)
+                regs.append("(%s.mk %s)" % (vt, " ".join(names)))
+                k += w
+            args.append("(%s.mk3 %s)" % (rt, " ".join(regs)))
+        elif c == "u32":
+            pats.append(".w x%d" % k)
+            args.append("(BitVec.setWidth 32 x%d)" % k)
+            k += 1
+        elif c == "u64":
             pats.append(".w x%d" % k)
             args.append("x%d" % k)
             k += 1
@@ -115,6 +133,8 @@ def lean_dispatch_entry(info, ns):
             kk += 4
         elif p["cat"] == "v8":
             kk += 8
+        elif p["cat"] in VR:
+            kk += 3 * VR[p["cat"]][2]
         else:
             kk += 1
     for i, o in enumerate(info.outs):
@@ -133,12 +153,23 @@ def lean_dispatch_entry(info, ns):
             outs.append("(%s).toList" % pr)
         elif c == "v8":
             outs.append("(%s).toList" % pr)
+        elif c in VR and vregs == 3:
+            outs.append("(%s.toList3 %s)" % (VR[c][0], pr))
         elif c in ("ptr", "arr"):
             if nm is None or nm not in region_lens:
                 return None
             outs.append("(Region.toList %s %s)" % (pr, region_lens[nm]))
         else:
             return None
+    if len(pats) > 32 or vregs:
+        # modules with vector-region parameters / long argument lists (three-register operands passed lane by lane): no list pattern (the match compiler does
+        # not scale), the arguments are read from an array after a check of their kinds
+        kinds = "".join("w" if q.startswith(".w") else "r" for q in pats)
+        body = 'let res := %s; some (%s)' % (call, " ++ ".join(outs))
+        body = re.sub(r"\bx(\d+)\.length\b", lambda mm: "(Driver.rD a %s).length" % mm.group(1), body)
+        body = re.sub(r"\(Region\.ofList x(\d+)\)", lambda mm: "(Region.ofList (Driver.rD a %s))" % mm.group(1), body)
+        body = re.sub(r"(?<![A-Za-z0-9_.])x(\d+)\b", lambda mm: "(Driver.wD a %s)" % mm.group(1), body)
+        return ("long", '  | "%s" => if !Driver.kindsOk a "%s" then none else %s' % (info.lean_name, kinds, body))
     return '  | "%s", [%s] => let res := %s; some (%s)' % (info.lean_name, ", ".join(pats), call, " ++ ".join(outs))
 
 
@@ -152,7 +183,7 @@ def cpp_fn_pointer_type(fty):
     return "%s (*)%s" % (ret, params)
 
 
-def cpp_dispatch_entry(info):
+def cpp_dispatch_entry(info, vregs=None):
     d = info.decl
     cls = d.get("_class")
     if cls not in CPP_CLASS:
@@ -193,6 +224,21 @@ def cpp_dispatch_entry(info):
         elif c == "bool":
             lines.append("    bool %s = A.w() != 0;" % v)
             call_args.append(v)
+        elif c == "u32":
+            lines.append("    uint32_t %s = (uint32_t)A.w();" % v)
+            call_args.append(v)
+        elif c in VR and vregs == 3:
+            # three planar registers, passed as 3 * lanes words; the array lives in a (guarded) buffer
+            w, ty = VR[c][2], VR[c][3]
+            q = pd["type"]["qualType"].strip()
+            lines.append("    Buf %s = A.wbuf(%d);" % (v, 3 * w))
+            if q.endswith("&"):
+                call_args.append("*reinterpret_cast<%s (*)[3]>(%s.p)" % (ty, v))
+            else:
+                call_args.append("reinterpret_cast<%s *>(%s.p)" % (ty, v))
+            if mode != "in":
+                post.append("    for (size_t i=0;i<%s.n;i++) outw(%s.p[i]);" % (v, v))
+            post.append("    %s.check();" % v)
         elif c in ("v4", "v8"):
             n = 4 if c == "v4" else 8
             ty = "__m256i" if c == "v4" else "__m512i"
@@ -287,7 +333,7 @@ def main():
         status["globals"] = [g[0] for g in gl]
     except Exception as e:
         status["globals_error"] = str(e)
-    lean_arms, cpp_arms = [], []
+    lean_arms, cpp_arms, lean_long_arms = [], [], []
     dispatch_imports = []
     import copy
     reg_fns, reg_consts = {}, {}
@@ -369,17 +415,26 @@ def main():
                     continue
                 if getattr(info, "alias", None):
                     continue
-                la = lean_dispatch_entry(info, m["ns"])
-                ca = cpp_dispatch_entry(info) if la else None
+                la = lean_dispatch_entry(info, m["ns"], m.get("vregion_regs"))
+                ca = cpp_dispatch_entry(info, m.get("vregion_regs")) if la else None
                 if la and ca:
-                    lean_arms.append(la)
+                    if isinstance(la, tuple):
+                        lean_long_arms.append(la[1])
+                    else:
+                        lean_arms.append(la)
                     cpp_arms.append(ca)
         status["modules"][name] = st
     # dispatchers
     dl = ["-- GENERATED by tools/gen.py. Do not edit.", "import Driver.Proto"]
     dl += ["import " + i for i in dispatch_imports]
-    dl += ["open GoldilocksVerif", "namespace Driver", "",
-           "def genDispatch (fn : String) (args : List Arg) : Option (List (BitVec 64)) :=",
+    dl += ["open GoldilocksVerif", "namespace Driver", ""]
+    dl += ["/-- entries of modules with vector-region parameters (up to 72 argument tokens): arguments read from an array;",
+           "    tried by Driver.Main when `genDispatch` has no entry -/",
+           "def genDispatchLong (fn : String) (a : Array Arg) : Option (List (BitVec 64)) :=",
+           "  match fn with"]
+    dl += lean_long_arms
+    dl += ["  | _ => none", ""]
+    dl += ["def genDispatch (fn : String) (args : List Arg) : Option (List (BitVec 64)) :=",
            "  match fn, args with"]
     dl += lean_arms
     dl += ["  | _, _ => none", "", "end Driver", ""]
@@ -397,11 +452,24 @@ def main():
         status["wrapspec"] = {"theorems": index, "skipped": skipped}
     except Exception as e:
         status["wrapspec"] = {"error": traceback.format_exc(limit=3)}
+    # per-overload theorems of the batched / AVX2 / AVX512 cubic-extension routines, from their signatures (C16)
+    try:
+        import extspec, glob
+        files, index, skipped = extspec.emit_lean(status)
+        pdir = os.path.join(os.path.dirname(GEN_DIR), "Props")
+        for fn, text in files.items():
+            write_if_changed(os.path.join(pdir, fn), text)
+        for old in glob.glob(os.path.join(pdir, "C16Gen_*.lean")):
+            if os.path.basename(old) not in files:
+                os.remove(old)
+        status["extspec"] = {"theorems": index, "skipped": skipped, "files": sorted(files)}
+    except Exception as e:
+        status["extspec"] = {"error": traceback.format_exc(limit=3)}
     status["wall_s"] = round(time.time() - t0, 2)
     write_if_changed(os.path.join(GEN_DIR, "STATUS.json"), json.dumps(status, indent=1, sort_keys=True))
     bad = [k for k, v in status["modules"].items() if not v["ok"]]
     print("gen: %d modules, %d dispatch entries, %.1fs%s" % (
-        len(MODS.MODULES), len(lean_arms), time.time() - t0, (" ; NOT TRANSLATED: " + ",".join(bad)) if bad else ""))
+        len(MODS.MODULES), len(lean_arms) + len(lean_long_arms), time.time() - t0, (" ; NOT TRANSLATED: " + ",".join(bad)) if bad else ""))
     return 0
 
 
